@@ -19,6 +19,10 @@ def main():
     path = sys.argv[1]
     only = None
     with_tests = "--with-repo-tests" in sys.argv
+    tests_only = "--tests-only" in sys.argv
+    global REPO
+    if "--repo" in sys.argv:
+        REPO = sys.argv[sys.argv.index("--repo") + 1]
     out = os.path.join(os.path.dirname(path), "results.json")
     for i, a in enumerate(sys.argv):
         if a == "--only":
@@ -46,12 +50,10 @@ def main():
         rec = {"id": m["id"], "property": m["property"], "file": m["file"], "what": m.get("what", ""), "expect": m.get("expect", "caught"), "checks": {}}
         try:
             open(f, "w").write(new)
-            if with_tests:
-                rc, o = sh("cargo test --workspace --offline 2>&1 | grep -E '^test result|error(\\[|:)|FAILED' | sort | uniq -c", cwd=REPO)
-                failed = ("FAILED" in o) or ("error" in o) or ("failed; " in o and " 0 failed" not in o)
-                fails = [l for l in o.splitlines() if "test result" in l and " 0 failed" not in l]
-                rec["repo_tests"] = "fail" if (fails or "error" in o) else "pass"
-            for pid in m["property"].split(","):
+            if with_tests or tests_only:
+                rc, o = sh("CARGO_NET_OFFLINE=true cargo test --workspace --offline --no-fail-fast > /dev/null 2>&1", cwd=REPO)
+                rec["repo_tests"] = "pass" if rc == 0 else "fail"
+            for pid in ([] if tests_only else m["property"].split(",")):
                 t = time.time()
                 rc, o = sh("./check %s" % pid, cwd=VERIF)
                 viol = [l for l in o.splitlines() if l.startswith("VIOLATION")]
@@ -60,6 +62,11 @@ def main():
         finally:
             sh("git checkout -- .", cwd=REPO)
         print(m["id"], rec.get("repo_tests", "-"), {k: (v["exit"], v["first"][:120]) for k, v in rec["checks"].items()}, flush=True)
+        if tests_only:
+            prev = [r for r in results if r["id"] == m["id"]]
+            if prev:
+                prev[0]["repo_tests"] = rec.get("repo_tests")
+                rec = prev[0]
         results = [r for r in results if r["id"] != m["id"]] + [rec]
         json.dump(results, open(out, "w"), indent=1)
 
